@@ -98,6 +98,11 @@ func H_c07(p []int) {
 	vAssert(bytesEq([]byte(rs.Redact()), red), "C07/redact-repeatable")
 	vAssert(bytesEq([]byte(redact.RedactableBytes(append([]byte{}, s0...)).Redact()), red), "C07/redact-bytes-repeatable")
 	vAssert(bytesEq([]byte(rs.StripMarkers()), str), "C07/strip-repeatable")
+	// results obtained earlier are values: later calls (on other inputs) leave them alone
+	_ = redact.RedactableBytes("zz‹y›zz‹yy›zz").Redact()
+	_ = redact.RedactableString("ww‹y›ww").Redact()
+	vAssert(bytesEq(redB, red), "C07/earlier-bytes-result-unchanged")
+	vAssert(bytesEq(strB, str), "C07/earlier-bytes-result-unchanged")
 	vAssert(bytesEq([]byte(rs.ToBytes()), s0), "C07/tobytes")
 	vAssert(bytesEq([]byte(rb.ToString()), s0), "C07/tostring")
 	vAssert(bytesEq([]byte(rs.ToBytes().ToString()), s0), "C07/roundtrip")
